@@ -493,6 +493,19 @@ func (s *Store) bin(op Op, a, b *Term) *Term {
 		return s.Const(w, r)
 	}
 	zero := func(t *Term) bool { return t.IsConst() && t.Val == 0 }
+	// division/remainder of a zero-extended value by a small positive constant: do it at the narrow width
+	if (op == OUDiv || op == OSDiv || op == OURem || op == OSRem) && a.Op == OZext && b.IsConst() && b.Val > 0 {
+		x := a.Args[0]
+		if b.Val <= mask(x.S.W-1) {
+			nop := op
+			if op == OSDiv {
+				nop = OUDiv
+			} else if op == OSRem {
+				nop = OURem
+			}
+			return s.Zext(s.bin(nop, x, s.Const(x.S.W, b.Val)), w)
+		}
+	}
 	switch op {
 	case OAdd:
 		if zero(a) {
@@ -619,6 +632,14 @@ func (s *Store) bin(op Op, a, b *Term) *Term {
 	case OUDiv, OSDiv:
 		if b.IsConst() && b.Val == 1 {
 			return a
+		}
+		// (x * c1) / c2 with c1 | c2 and no wrap-around: x / (c2/c1)
+		if b.IsConst() && a.Op == OMul && a.Args[1].IsConst() && a.Args[1].Val != 0 && b.Val%a.Args[1].Val == 0 && sx(b.Val, w) > 0 && sx(a.Args[1].Val, w) > 0 {
+			_, xh := s.rangeOf(a.Args[0])
+			hi, lo := bits.Mul64(xh, a.Args[1].Val)
+			if hi == 0 && lo < (uint64(1)<<uint(w-1)) {
+				return s.bin(op, a.Args[0], s.Const(w, b.Val/a.Args[1].Val))
+			}
 		}
 	case OURem:
 		if b.IsConst() && b.Val == 1 {
